@@ -28,7 +28,7 @@ for pdir, r in sorted(res.items()):
         meta = json.load(open(os.path.join(pdir, "meta.json")))
     except Exception:
         pass
-    meta["property"] = prop
+    meta.setdefault("property", prop)
     meta["confirmed"] = {"applies_to": "HEAD of /repo at evaluation time (git apply in a scratch worktree)", "go build && go vet": True,
                          "baseline go test ./...": True, "demonstration": "see how_to_run.txt (verified by the authoring agent: fails with the patch, passes without)"}
     meta["what_was_run"] = "tools/seedtest.py: patch applied in a scratch worktree of /repo, checks run with VERIF_REPO pointing at it (quick tier, VERIF_SEED=1)"
